@@ -115,6 +115,7 @@ static QXmppConfiguration makeConfig(const Cfg &c, quint16 port)
         if (auto cr = QXmppCredentials::fromXml(r)) cfg.setCredentials(*cr);
         else { fprintf(stderr, "harness: cannot build credentials\n"); exit(3); }
         if (!cfg.credentialData().htToken) { fprintf(stderr, "harness: token not set\n"); exit(3); }
+        cfg.setPassword(PASSWORD);   // setCredentials() replaced the whole credential set
     }
     return cfg;
 }
@@ -243,8 +244,11 @@ struct Conn {
     QSslSocket *sock = nullptr;
     QByteArray plain;       // bytes read while the server side was NOT encrypted = what crossed the wire in clear
     QByteArray secure;      // bytes read through TLS
-    bool tlsStarted = false, tlsDone = false, tlsFailed = false, garbageOnHello = false, closed = false;
+    bool tlsStarted = false, tlsDone = false, tlsFailed = false, garbageOnHello = false, awaitHello = false, closed = false;
     int id = 0;
+    // what the script delivered on this connection (for the oracles; independent of the model)
+    int delivered = 0;
+    bool firstIsHeader = false, sawVersionlessHeader = false, sawIqRequest = false;
 };
 
 class Server : public QTcpServer
@@ -261,6 +265,7 @@ protected:
         c->id = int(conns.size());
         c->sock = new QSslSocket(this);
         c->sock->setSocketDescriptor(fd);
+        c->sock->setSocketOption(QAbstractSocket::LowDelayOption, 1);
         if (g_tlsOk) {
             c->sock->setLocalCertificate(g_cert);
             c->sock->setPrivateKey(g_key);
@@ -269,6 +274,18 @@ protected:
         conns.push_back(c);
         Conn *cp = c.get();
         QObject::connect(c->sock, &QSslSocket::readyRead, this, [this, cp]() {
+            if (cp->awaitHello) {
+                // after <proceed/>: a TLS ClientHello starts the server side handshake; anything else is plaintext and stays visible
+                char first = 0;
+                if (cp->sock->peek(&first, 1) == 1 && uchar(first) == 0x16) {
+                    cp->awaitHello = false;
+                    cp->tlsStarted = true;
+                    cp->sock->startServerEncryption();
+                    if (activity) activity();
+                    return;
+                }
+                cp->awaitHello = false;
+            }
             QByteArray d = cp->sock->readAll();
             if (cp->sock->isEncrypted()) cp->secure += d;
             else {
@@ -306,6 +323,7 @@ struct World {
     int connectedThisConn = 0;
     std::vector<int> sessionBind2Used;      // SessionBegin.bind2Used of every connected()
     int iqStarted = 0, iqFinished = 0, iqFinishedErr = 0;
+    QStringList outstandingIds;        // the application's own requests still waiting for an answer
     long long settleTimeouts = 0;
     bool verbose = false;
 
@@ -371,50 +389,67 @@ struct World {
         QObject::connect(client->strm(), &QXmppOutgoingClient::connected, client.get(), [this](const QXmpp::Private::SessionBegin &s) {
             sessionBind2Used.push_back(s.bind2Used ? 1 : 0);
         });
-        QObject::connect(client->strm()->socket(), &QAbstractSocket::connected, client.get(), [this]() { act++; connectedThisConn = 0; });
+        QObject::connect(client->strm()->socket(), &QAbstractSocket::connected, client.get(), [this]() {
+            act++; connectedThisConn = 0;
+            client->strm()->socket()->setSocketOption(QAbstractSocket::LowDelayOption, 1);   // timing only: no Nagle delays on loopback
+        });
         if (cfg.inactive) client->setActive(false);
         sent.clear(); events.clear();
         connectedSignals = disconnectedSignals = errorSignals = connectedThisConn = 0;
         sessionBind2Used.clear();
         iqStarted = iqFinished = iqFinishedErr = 0;
+        outstandingIds.clear();
     }
 
-    static bool pending(QSslSocket *s)
+    // transitional socket states count as "in flight" only for a while: a client that received see-other-host on a TLS link
+    // stays in ConnectingState for ever (finding), and the harness must not wait for it
+    bool transitional = false;
+    bool pending(QSslSocket *s)
     {
         if (!s || s->state() == QAbstractSocket::UnconnectedState) return false;
-        if (s->state() != QAbstractSocket::ConnectedState) return true;   // connecting / closing: something is in flight
+        if (s->state() != QAbstractSocket::ConnectedState) { transitional = true; return false; }
         if (s->bytesToWrite() > 0 || s->encryptedBytesToWrite() > 0) return true;
         int fd = int(s->socketDescriptor());
         if (fd < 0) return false;
         int n = 0;
         if (ioctl(fd, FIONREAD, &n) == 0 && n > 0) return true;
         n = 0;
-        if (ioctl(fd, SIOCOUTQ, &n) == 0 && n > 0) return true;
+        if (ioctl(fd, SIOCOUTQNSD, &n) == 0 && n > 0) return true;   // not yet sent (acknowledgement delays do not matter)
         return false;
     }
 
     // pump the event loop until nothing is in flight in either direction
     void settle()
     {
-        QElapsedTimer t; t.start();
-        int idle = 0;
+        QElapsedTimer t, quietSince; t.start(); quietSince.start();
+        int idle = 0, iters = 0;
         auto *disp = QCoreApplication::eventDispatcher();
         while (idle < 3) {
             long long before = act;
             bool any = disp->processEvents(QEventLoop::AllEvents);
             QCoreApplication::sendPostedEvents(nullptr, QEvent::DeferredDelete);
             noteConns();
+            transitional = false;
             bool pend = pending(client->strm()->socket());
             for (Server *s : { &srvA, &srvB })
                 for (auto &c : s->conns)
                     if (!c->closed && pending(c->sock)) pend = true;
             // a TLS handshake in progress is "in flight" as well
             auto c = conn();
-            if (c && c->tlsStarted && !c->tlsDone && !c->tlsFailed && !c->closed) pend = true;
+            {
+                auto *cs = client->strm()->socket();
+                bool clientHandshaking = cs->state() == QAbstractSocket::ConnectedState && cs->mode() == QSslSocket::SslClientMode && !cs->isEncrypted();
+                if (c && !c->closed && clientHandshaking && (c->garbageOnHello || c->awaitHello || (c->tlsStarted && !c->tlsDone && !c->tlsFailed))) pend = true;
+                if (c && !c->closed && c->tlsDone && clientHandshaking) pend = true;
+            }
+            if (any || act != before) quietSince.restart();
+            if (transitional && quietSince.elapsed() < 40) pend = true;
             if (any || act != before || pend) idle = 0; else idle++;
             if (!any && act == before) QThread::usleep(pend ? 200 : 20);
-            if (t.elapsed() > 1500) { settleTimeouts++; break; }
+            if (t.elapsed() > 1500) { settleTimeouts++; fprintf(stderr, "harness: settle timeout (any=%d pend=%d)\n", any, pend); break; }
+            iters++;
         }
+        if (verbose) fprintf(stderr, "  settle: %d iterations, %lld us\n", iters, (long long)(t.nsecsElapsed() / 1000));
     }
 
     void srvSend(const QByteArray &xml)
@@ -516,6 +551,12 @@ struct Runner {
         const QStringList t = QString::fromStdString(opStr).split(' ', Qt::SkipEmptyParts);
         const QString op = t.value(0);
         auto &c = w;
+        if (auto k = c.conn(); k && !k->closed && op != "connect" && op != "drop" && op != "sendiq") {
+            if (k->delivered == 0) k->firstIsHeader = (op == "hdr");
+            k->delivered++;
+            if (op == "hdr" && t.value(1) == "0") k->sawVersionlessHeader = true;
+            if (op == "iqget" || op == "iqset") k->sawIqRequest = true;
+        }
         if (op == "connect") {
             c.client->connectToServer(makeConfig(c.cfg, c.srvA.serverPort()));
         } else if (op == "hdr") {
@@ -529,7 +570,7 @@ struct Runner {
             auto k = c.conn();
             c.srvSend("<proceed xmlns='urn:ietf:params:xml:ns:xmpp-tls'/>");
             if (k && !k->closed && !k->tlsStarted) {
-                if (t.value(1) == "1" && g_tlsOk) { k->tlsStarted = true; k->sock->startServerEncryption(); }
+                if (t.value(1) == "1" && g_tlsOk) k->awaitHello = true;
                 else k->garbageOnHello = true;
             }
         } else if (op == "tlsfailure") {
@@ -571,13 +612,13 @@ struct Runner {
             c.srvSend("<continue xmlns='urn:xmpp:sasl:2'><tasks><task>HOTP-EXAMPLE</task></tasks></continue>");
         } else if (op == "fields") {
             // XEP-0078 field offer: fields <plain> <digest>
-            QByteArray x = "<iq type='result' id='" + c.lastIqId().toUtf8() + "'><query xmlns='jabber:iq:auth'><username/>";
+            QByteArray x = "<iq type='result' id='" + c.lastIqIdMatching("jabber:iq:auth").toUtf8() + "'><query xmlns='jabber:iq:auth'><username/>";
             if (t.value(1) == "1") x += "<password/>";
             if (t.value(2) == "1") x += "<digest/>";
             c.srvSend(x + "<resource/></query></iq>");
         } else if (op == "authres") {
             // authres <ok:0|1>: answer to the XEP-0078 set, with the id of the last <iq/> the client sent
-            QByteArray id = c.lastIqId().toUtf8();
+            QByteArray id = c.lastIqIdMatching("jabber:iq:auth").toUtf8();
             if (t.value(1) == "1") c.srvSend("<iq type='result' id='" + id + "'/>");
             else c.srvSend("<iq type='error' id='" + id + "'><error type='auth'><not-authorized xmlns='urn:ietf:params:xml:ns:xmpp-stanzas'/></error></iq>");
         } else if (op == "bindres") {
@@ -606,7 +647,7 @@ struct Runner {
         } else if (op == "iqresult") {
             // iqresult pending | stray : result for the client's outstanding request (roster / sendIq) or for nothing
             if (t.value(1) == "pending") {
-                QByteArray id = c.lastIqIdMatching("urn:example:pending").toUtf8();
+                QByteArray id = c.outstandingIds.isEmpty() ? QByteArray("none") : c.outstandingIds.last().toUtf8();
                 c.srvSend("<iq type='result' id='" + id + "'/>");
             } else c.srvSend("<iq type='result' id='stray-1'/>");
         } else if (op == "message") {
@@ -628,8 +669,12 @@ struct Runner {
             QXmppElement el; el.setTagName("query"); el.setAttribute("xmlns", "urn:example:pending");
             iq.setExtensions({ el });
             c.iqStarted++;
-            c.client->strm()->sendIq(std::move(iq)).then(c.client.get(), [&c](QXmppOutgoingClient::IqResult &&r) {
+            const QString rid = QStringLiteral("user-%1").arg(c.iqStarted);
+            iq.setId(rid);
+            c.outstandingIds.push_back(rid);
+            c.client->strm()->sendIq(std::move(iq)).then(c.client.get(), [&c, rid](QXmppOutgoingClient::IqResult &&r) {
                 c.iqFinished++;
+                c.outstandingIds.removeAll(rid);
                 if (std::holds_alternative<QXmppError>(r)) { c.iqFinishedErr++; c.events.push_back("iqdone:error"); }
                 else c.events.push_back("iqdone:result");
             });
@@ -637,7 +682,9 @@ struct Runner {
             fprintf(stderr, "harness: unknown op '%s'\n", opStr.c_str());
             exit(3);
         }
+        long long st = c.settleTimeouts;
         c.settle();
+        if (c.settleTimeouts != st) fprintf(stderr, "harness: ... during op '%s'\n", opStr.c_str());
         return c.takeObs();
     }
 };
@@ -675,8 +722,11 @@ static int runManual(const std::string &cfgStr, const std::string &script)
 // ------------------------------------------------------------------------------------------------ exploration
 static long long g_scripts = 0, g_ops = 0;
 static std::map<std::string, int> g_failPrinted;
-static void fail(const std::string &key, const std::string &replay)
+static bool g_stuckAfterTlsRedirect = false;   // this experiment delivered see-other-host on a TLS link (client hangs in Connecting: finding)
+static void fail(std::string key, const std::string &replay)
 {
+    // everything that goes wrong in an experiment after that point is a consequence of the same hang
+    if (g_stuckAfterTlsRedirect && key.rfind("C10:", 0) == 0) key = "C10:stuck-after-see-other-host-over-tls";
     stat("fail:" + key);
     if (g_failPrinted[key]++ < 3) oracleFail(key, replay);
 }
@@ -693,7 +743,10 @@ struct Session {
     }
     Session(Runner &r, const Cfg &c) : r(r), cfg(c)
     {
+        QElapsedTimer t; t.start();
         r.w.newClient(c);
+        g_stuckAfterTlsRedirect = false;
+        stat("time_us:newClient", t.nsecsElapsed() / 1000);
         corr("reset " + c.str(), "ok");
         g_scripts++;
     }
@@ -702,7 +755,10 @@ struct Session {
         ops.push_back(o);
         printf("I %s\n", replay().c_str());
         fflush(stdout);
+        QElapsedTimer t; t.start();
+        if (o == "redirect") { auto k = r.w.conn(); if (k && !k->closed && k->tlsDone) g_stuckAfterTlsRedirect = true; }
         std::string obs = r.apply(o);
+        stat("time_us:apply", t.nsecsElapsed() / 1000);
         corr(o, obs);
         g_ops++;
         stat("op:" + o.substr(0, o.find(' ')));
@@ -766,10 +822,21 @@ static void oracleC04(Session &s)
                 serverView.push_back(k);
                 bool ok = false;
                 for (auto a : ALLOWED_CLEAR) ok |= (k == a);
-                if (!ok && !reported.count(k)) { reported.insert(k); fail("C04:cleartext:" + k, s.replay()); }
+                if (!ok) {
+                    // the visible cause in the script (not the model's opinion) is part of the key, so that a new way of
+                    // leaking the same kind of element is not mistaken for a known one
+                    std::string cause = "unexplained";
+                    if (k.rfind("NonSasl", 0) == 0 && c->sawVersionlessHeader) cause = "after-versionless-header";
+                    if (k.rfind("IqReply", 0) == 0 && c->sawIqRequest) cause = "answer-to-iq-request";
+                    std::string key = "C04:cleartext:" + k + ":" + cause;
+                    if (!reported.count(key)) { reported.insert(key); fail(key, s.replay()); }
+                }
             }
             std::string sec = secrets().find(c->plain);
-            if (!sec.empty() && !reported.count("secret:" + sec)) { reported.insert("secret:" + sec); fail("C04:secret-in-cleartext:" + sec, s.replay()); }
+            if (!sec.empty() && !reported.count("secret:" + sec)) {
+                reported.insert("secret:" + sec);
+                fail("C04:secret-in-cleartext:" + sec + (c->sawVersionlessHeader ? ":after-versionless-header" : ":unexplained"), s.replay());
+            }
         }
     // cross-check of the two observation points: client-side log + isEncrypted() versus bytes on the server side
     std::vector<std::string> clientView;
@@ -787,7 +854,7 @@ struct Policy {
     int sm = 0;             // 0 none, 1 offered, <enabled/> without resume, 2 offered, resumable
     bool resumeOk = true;   // answer <resume/> with <resumed/> (else <failed/>)
     bool csi = false;
-    int redirectAt = -1;    // send see-other-host as the k-th server element of the connection (0 = right after the header)
+    int redirectAt = -1;    // k >= 0: send see-other-host instead of the (k+1)-th server element; -2: once the session is established
 };
 
 struct Conforming {
@@ -798,7 +865,6 @@ struct Conforming {
     // returns "" when the server has nothing more to say (negotiation finished from the server's point of view)
     std::string next(const std::string &lastKind, bool newStream)
     {
-        if (p.redirectAt >= 0 && !redirected && said == p.redirectAt + 1) { redirected = true; return "redirect"; }
         if (newStream) { needFeatures = true; return p.auth == 'l' ? "hdr 0 1" : "hdr 1 1"; }
         if (needFeatures) {
             needFeatures = false;
@@ -852,9 +918,10 @@ static std::vector<Policy> policies()
     add("sasl2-bind2-smr-noresume", false, '2', 2, false, false, -1);
     add("sasl2-classicbind", false, 'b', 1, true, false, -1);
     add("legacy", false, 'l', 0, true, false, -1);
-    add("redirect-first", false, 'p', 0, true, false, 0);
-    add("redirect-in-session", false, 'p', 0, true, false, 5);
-    add("redirect-in-session-smr", false, 'p', 2, true, false, 6);
+    add("redirect-first", false, 'p', 0, true, false, 1);
+    add("tls-redirect", true, 'p', 0, true, false, 4);
+    add("redirect-in-session", false, 'p', 0, true, false, -2);
+    add("redirect-in-session-smr", false, 'p', 2, true, false, -2);
     return v;
 }
 
@@ -883,30 +950,33 @@ static AttemptResult runAttempt(Session &s, const Policy &p, int cut, bool sendI
     s.op("connect");
     bool newStream = true;
     size_t bind2Idx = w.sessionBind2Used.size();
+    auto negotiationOver = [&]() {
+        Conforming probe = srv;
+        std::string l2 = lastRequest(w, sentFrom);
+        return probe.next(l2, newStream || l2 == "StreamOpen").empty();
+    };
     for (int guard = 0; guard < 40; guard++) {
         if (cut >= 0 && srv.said >= cut) break;
         std::string last = lastRequest(w, sentFrom);
-        sentFrom = w.sent.size();
         // a new stream begins whenever the client sent a stream open
-        std::string o = srv.next(last, newStream || last == "StreamOpen");
-        newStream = false;
+        Conforming probe = srv;
+        std::string o = probe.next(last, newStream || last == "StreamOpen");
+        bool redirectNow = !srv.redirected && ((p.redirectAt >= 0 && srv.said == p.redirectAt && !o.empty()) || (p.redirectAt == -2 && o.empty()));
+        if (redirectNow) { o = "redirect"; srv.redirected = true; }
+        else srv = probe;
         if (o.empty()) { res.reachedDone = true; break; }
-        bool wasRedirect = o == "redirect";
+        sentFrom = w.sent.size();
+        newStream = false;
         srv.said++;
         s.op(o);
-        if (wasRedirect) { srv.tlsDone = false; srv.authed = false; srv.bind2Now = false; srv.needFeatures = false; newStream = true; sentFrom = w.sent.size(); }
+        if (redirectNow) { srv.tlsDone = false; srv.authed = false; srv.bind2Now = false; srv.needFeatures = false; srv.resumableNow = false; newStream = true; }
         // oracle: nothing may be reported as an established session while the server still has something to say
-        bool more = true;
-        {
-            Conforming probe = srv;
-            std::string l2 = lastRequest(w, sentFrom);
-            more = !probe.next(l2, newStream || l2 == "StreamOpen").empty();
-        }
-        if (more && (w.client->isConnected() || w.client->state() == QXmppClient::ConnectedState))
-            fail(std::string("C10:session-reported-during-negotiation") + (wasRedirect || srv.redirected ? ":after-redirect" : ""), s.replay());
+        if (!negotiationOver() && (w.client->isConnected() || w.client->state() == QXmppClient::ConnectedState))
+            fail(std::string("C10:session-reported-during-negotiation") + (srv.redirected ? ":after-redirect" : ""), s.replay());
         else oraclePass()++;
         if (w.connectedThisConn > 1) fail("C10:connected-twice-on-one-connection", s.replay());
     }
+    if (!res.reachedDone && negotiationOver() && !(p.redirectAt == -2 && !srv.redirected)) res.reachedDone = true;
     res.said = srv.said;
     res.connectedSeen = w.connectedSignals > connectedBefore;
     if (res.reachedDone) {
@@ -921,7 +991,7 @@ static AttemptResult runAttempt(Session &s, const Policy &p, int cut, bool sendI
             else oraclePass()++;
         }
         if (sendIqWhenUp && w.client->isConnected()) s.op("sendiq");
-    } else if (res.connectedSeen && !(p.redirectAt >= 0 && srv.redirected)) {
+    } else if (res.connectedSeen && !(p.redirectAt == -2)) {
         fail("C10:connected-before-negotiation-finished", s.replay());
     }
     return res;
@@ -950,6 +1020,20 @@ static void exploreC10(Runner &r, Rng &rng, bool thorough)
     { Cfg c; c.tls = 1; c.plainOk = true; cfgs.push_back(c); }
     { Cfg c; c.tls = 1; c.plainOk = true; c.inactive = true; cfgs.push_back(c); }
     { Cfg c; c.tls = 0; c.plainOk = true; c.sasl2 = false; cfgs.push_back(c); }
+    // (0) corpus: the witnesses of the recorded findings first
+    auto byName = [&](const char *n) { for (auto &p : pols) if (p.name == n) return p; fprintf(stderr, "harness: no policy %s\n", n); exit(3); };
+    struct Pair { const char *p1; int cut; const char *p2; int cfg; };
+    for (Pair pr : { Pair { "legacy", -1, "sasl-bind", 0 }, Pair { "tls-redirect", -1, "sasl-bind", 0 }, Pair { "redirect-in-session", -1, "sasl-bind", 0 },
+                     Pair { "sasl2-bind2-smr", 3, "sasl-bind-smr", 1 }, Pair { "sasl2-bind2-smr", 3, "sasl-bind-smr", 0 } }) {
+        Session s(r, cfgs[size_t(pr.cfg)]);
+        bool resumable = false;
+        auto a1 = runAttempt(s, byName(pr.p1), pr.cut, true, resumable);
+        cutAndCheck(s, a1.reachedDone ? resumable : false);
+        bool r2 = false;
+        runAttempt(s, byName(pr.p2), -1, false, r2);
+        sample(s.replay());
+        stat("c10:runs");
+    }
     // (1) every policy x every cut point, then a full attempt with the same policy
     for (size_t ci = 0; ci < cfgs.size(); ci++)
         for (auto &p : pols) {
@@ -1019,33 +1103,35 @@ static const std::vector<std::string> &alphabetFull()
     return a;
 }
 
-static void tlsUnavailableOracle(Session &s, const std::string &op, bool headerOnConn)
-{
-    // property text: "if encryption cannot be negotiated it gives up and disconnects"
-    World &w = s.r.w;
-    if (s.cfg.tls != 2 || op.rfind("feat t0", 0) != 0 || !headerOnConn) return;
-    auto c = w.conn();
-    if (!c || c->tlsDone) return;
-    if (w.client->state() != QXmppClient::DisconnectedState || !c->closed) fail("C04:tls-unavailable-but-not-disconnected", s.replay());
-    else oraclePass()++;
-}
+// property text: "if encryption cannot be negotiated it gives up and disconnects".  Checked whenever features without
+// <starttls/> are delivered on a well-formed (header first), still unencrypted, still open connection.
+struct TlsUnavailableCheck {
+    std::shared_ptr<Conn> c;
+    bool armed = false;
+    void before(Session &s, const std::string &op)
+    {
+        c = s.r.w.conn();
+        armed = s.cfg.tls == 2 && op.rfind("feat t0", 0) == 0 && c && !c->closed && !c->tlsDone && !c->tlsStarted && c->firstIsHeader && c->delivered >= 1;
+    }
+    void after(Session &s)
+    {
+        if (!armed) return;
+        World &w = s.r.w;
+        if (w.conn() != c) return;   // redirected meanwhile
+        if (w.client->state() != QXmppClient::DisconnectedState || !c->closed) fail("C04:tls-unavailable-but-not-disconnected", s.replay());
+        else oraclePass()++;
+    }
+};
 
 static void runC04Script(Runner &r, const Cfg &cfg, const std::vector<std::string> &script)
 {
     Session s(r, cfg);
     s.op("connect");
-    bool headerOnConn = false;
-    int connSeq = r.w.connSeq;
+    TlsUnavailableCheck chk;
     for (auto &o : script) {
-        auto c = r.w.conn();
-        bool open = c && !c->closed && !c->tlsDone;
-        bool pre = headerOnConn && open;
+        chk.before(s, o);
         s.op(o);
-        if (r.w.connSeq != connSeq) { connSeq = r.w.connSeq; headerOnConn = false; }
-        else if (c && c->tlsDone && !open) { }
-        if (pre) tlsUnavailableOracle(s, o, true);
-        if (o.rfind("hdr", 0) == 0 && open) headerOnConn = true;
-        if (o.rfind("proceed 1", 0) == 0) headerOnConn = false;
+        chk.after(s);
     }
     oracleC04(s);
     if (samplesLeft() > 0) sample(s.replay());
@@ -1059,7 +1145,8 @@ static void exploreC04(Runner &r, Rng &rng, bool thorough)
     { Cfg c; c.tls = 1; c.plainOk = true; cfgs.push_back(c); }
     { Cfg c; c.tls = 0; c.plainOk = true; c.nsPlain = true; cfgs.push_back(c); }
     const auto &A = alphabetSmall();
-    const int depth = thorough ? 4 : 3;
+    int depth = thorough ? 4 : 3;
+    if (getenv("NEG_SMALL")) depth = 2;
     // corpus: the two defect witnesses and the plain successful paths first
     runC04Script(r, cfgs[0], { "hdr 0 1", "fields 1 1" });
     runC04Script(r, cfgs[0], { "hdr 1 1", "iqget version" });
@@ -1085,7 +1172,7 @@ static void exploreC04(Runner &r, Rng &rng, bool thorough)
     // random: a conforming server that is derailed with probability 1/3 per step
     const auto &F = alphabetFull();
     auto pols = policies();
-    int nRandom = thorough ? 6000 : 700;
+    int nRandom = thorough ? 6000 : 700; if (getenv("NEG_SMALL")) nRandom = 20;
     for (int n = 0; n < nRandom; n++) {
         Cfg c;
         c.tls = int(rng.below(3)); if (rng.below(3) == 0) c.tls = 2;
@@ -1099,6 +1186,7 @@ static void exploreC04(Runner &r, Rng &rng, bool thorough)
         size_t sentFrom = 0;
         bool newStream = true;
         int len = 3 + int(rng.below(10));
+        TlsUnavailableCheck chk;
         for (int k = 0; k < len; k++) {
             std::string last = lastRequest(r.w, sentFrom);
             sentFrom = r.w.sent.size();
@@ -1106,8 +1194,14 @@ static void exploreC04(Runner &r, Rng &rng, bool thorough)
             if (rng.below(3) != 0) o = srv.next(last, newStream || last == "StreamOpen");
             newStream = false;
             if (o.empty()) o = F[rng.below(uint32_t(F.size()))];
-            if (o == "connect" && r.w.client->strm()->socket()->state() != QAbstractSocket::UnconnectedState && rng.below(4) != 0) o = "drop";
+            // connectToServer() on a live connection makes QSslSocket::connectToHost() reset the socket to plaintext mode (Qt); what
+            // follows is garbage on both sides, so it is only generated as the very last op of a script
+            if (o == "connect" && r.w.client->strm()->socket()->state() != QAbstractSocket::UnconnectedState && k != len - 1) o = "drop";
+            // application requests sent before the session exists are outside the property (it quantifies over servers)
+            if (o == "sendiq" && c.tls == 2 && !r.w.client->strm()->socket()->isEncrypted()) o = "message";
+            chk.before(s, o);
             s.op(o);
+            chk.after(s);
             if (o == "redirect" || o == "connect") { srv.tlsDone = srv.authed = srv.bind2Now = false; newStream = true; }
         }
         oracleC04(s);
